@@ -1,5 +1,5 @@
 ---- MODULE MC_SessRefresh ----
-(* Family "refresh": SetObj v1 ; NewEmpty ; CopyTo ; SetObj v2 ; CopyTo ; CopyTo (thorough: ; SetPrior v3 ; CopyTo ; CopyTo, v3 being the zero value or a value with everything set).  Serves C09. *)
+(* Family "refresh": SetObj v1 ; NewEmpty ; CopyTo ; SetObj v2 ; CopyTo ; CopyTo (thorough: ; SetPrior v3 ; CopyTo ; CopyTo, v3 being the zero value or a value with everything set; the value pool stays the quick one - with the deep pool the family has 3.5 million trace lines).  Serves C09. *)
 EXTENDS Shapes, TLC, Json
 CONSTANTS MCDeep, MCLong
 VARIABLES sh, M, Mi, obj, tf, dg, pn, pc, hist, viol, aux
